@@ -247,6 +247,8 @@ func verifAssertNoLiveThreads(label string) {
 		verifExit("VERIF-VIOLATION: "+label, 1)
 	}
 }
+func verifAdvanceMs(ms int) { time.Sleep(time.Duration(ms) * time.Millisecond) }
+
 func verifAdvanceTime()                    { time.Sleep(1200 * time.Millisecond) }
 func verifSymbolicClock()                  {}
 func verifHelperExit(int)                  { verifNotNative("verifHelper") }
